@@ -512,6 +512,7 @@ func RunC1(rc *RunCtx, sc *C1) *C1Outcome {
 		connect = func() error { return nil }
 	}
 
+	firstRecEnd, firstHookEnd := -1, -1
 	s.Go("caller", false, func(tk *Task) {
 		if sc.Fault != FNotConnected {
 			out.ConnErr = connect()
@@ -527,7 +528,16 @@ func RunC1(rc *RunCtx, sc *C1) *C1Outcome {
 		out.Returned = true
 		out.PendingRead = reading > 0
 		s.Logf("do-returned err=%v", out.Err)
-		// a long history: the same poll repeated many times (counters, caches and whatever else a client may accumulate)
+		// a long history: the same poll repeated many times (counters, caches and whatever else a client may accumulate);
+		// what the transport and the hooks record from here on belongs to the repetitions, not to the first call
+		if sc.Marathon > 0 {
+			cl.lock()
+			firstRecEnd = len(cl.Rec)
+			if hooks != nil {
+				firstHookEnd = len(hooks.recs)
+			}
+			cl.unlock()
+		}
 		for k := 0; k < sc.Marathon && out.Err == nil; k++ {
 			cl.lock()
 			cl.in.segs, cl.in.eof = nil, false
@@ -603,6 +613,9 @@ func RunC1(rc *RunCtx, sc *C1) *C1Outcome {
 	if len(out.Next) > 0 {
 		end = out.Next[0].recFrom
 	}
+	if firstRecEnd >= 0 && firstRecEnd < end {
+		end = firstRecEnd
+	}
 	fill := func(o *C1Outcome, recs []IORec) {
 		o.Rec = recs
 		for _, r := range recs {
@@ -627,6 +640,9 @@ func RunC1(rc *RunCtx, sc *C1) *C1Outcome {
 		hend := len(hooks.recs)
 		if len(out.Next) > 0 {
 			hend = out.Next[0].hookFrom
+		}
+		if firstHookEnd >= 0 && firstHookEnd < hend {
+			hend = firstHookEnd
 		}
 		out.Hooks = hooks.recs[:hend]
 		for i, o := range out.Next {
